@@ -93,6 +93,18 @@ def run(pid, tier, seed):
                 if st["panic"] or any(r == "panic" for r in st["api"].values()) or st.get("stuck"):
                     hit("orch_%d_%d.json" % (sc["id"], i), dict(what="panic or wedge in session handling", step=st, scenario=dict(sc, steps=sc["steps"][:i + 1])),
                         "orchestrator: " + (st.get("panic_val") or st.get("stuck") or "panic"))
+        # 5b. membership synchroniser: authentic, foreign-tagged, repeated and malformed sync traffic against real disc.Members,
+        #     step by step and against a running Synchronize goroutine; every HandleMessage call runs under a watchdog
+        for cmd, n, s in (("disc-step", 3000 if big else 200, seed), ("disc-sync", 3000 if big else 200, seed + 1)):
+            scen = jsonl(chk, "core", [cmd, "-n", str(n), "-seed", str(s)], cmd) or []
+            for sc in scen:
+                for i, o in enumerate(sc.get("ops", [])):
+                    total += 1
+                    dist["disc/%s/%s" % (sc.get("mode", cmd), o.get("op", "?"))] += 1
+                    if o.get("bad"):
+                        hit("disc_%s_%d_%d.json" % (cmd, sc["id"], i),
+                            dict(what="membership synchroniser: HandleMessage / Synchronize " + o["bad"], op=i, scenario=dict(sc, ops=sc["ops"][:i + 1])),
+                            "membership synchroniser %s on a message of peer %s" % (o["bad"].split(":")[0], o.get("from")))
     # 6. built-in DKG handlers / classifiers, PS parsers and verification entry points, BLS verifier
     # (dkg: whole key generations of real TBLS / TPS instances against one participant sending malformed, right-sized-but-invalid
     #  and placeholder values -- a panic may come later than the OnMsg call that let the value in; harness/dkg malformed)
